@@ -68,6 +68,13 @@ def cases(tier, rng):
                     "attach d PUB", "wire a", "wire b", "wire c", "wire d"]
                 out.append("f%d.%s sock SUB / %s" % (k, bad, " / ".join(ops)))
                 k += 1
+    # joins interleaved with updates of which one fails on one connection: every later joiner is told the current set
+    for bad in "ab":
+        for kind in ("broken=BrokenPipe", "broken=ConnectionReset"):
+            ops = ["attach a PUB", "attach b PUB", "sub 41", "attach c PUB", "wmode %s %s" % (bad, kind), "sub 42", "attach d PUB",
+                   "unsub 41", "attach e PUB", "wire a", "wire b", "wire c", "wire d", "wire e"]
+            out.append("f%d.%s sock SUB / %s" % (k, bad, " / ".join(ops)))
+            k += 1
     # topics whose subscription message sits on the short/long frame boundary (topic of 254 / 255 / 256 bytes)
     for tl in (253, 254, 255, 256):
         topic = W.tok(bytes([0x41 + (tl + i) % 23 for i in range(tl)]))
